@@ -137,3 +137,24 @@ Theorem C12_lost_else_refuted :
   deliver_pair VValid true = [OErrorPath] /\ deliver_pair_no_else VValid true = [OErrorPath; OVisited].
 Proof. exact lost_else_refuted. Qed.
 Print Assumptions C12_lost_else_refuted.
+
+(** The strict wrapper TEMPLATES themselves (coq/Gen/Wrappers.v: strict-http, strict-gin, strict-echo, strict-fiber,
+    strict-iris translated to terms of Model/Tmpl.v on every run; [render] checked against text/template on every run).
+    Whatever the operation, in the text a strict wrapper template renders the response object is written
+    (Visit...Response) only inside an else-branch of the [if err != nil] that directly follows the call of the strict
+    handler chain: never when the chain returned an error, never outside that chain of branches.  The tail with the first
+    else lost is rejected. *)
+From V Require Import Model.Tmpl Gen.Wrappers Proofs.TmplProofs Proofs.WrappersOk.
+Theorem C12_every_strict_template_guards_its_visits : forall name t e,
+  In (name, t) strict_wrappers -> visits_guarded (render t e) = true.
+Proof. exact every_strict_wrapper_guards_its_visits. Qed.
+Print Assumptions C12_every_strict_template_guards_its_visits.
+
+Theorem C12_strict_criterion_sound : forall t, strict_segments_ok t = true -> forall e, visits_guarded (render t e) = true.
+Proof. exact strict_segments_sound. Qed.
+Print Assumptions C12_strict_criterion_sound.
+
+Theorem C12_tail_without_else_refuted :
+  visits_guarded tail_of_the_templates = true /\ visits_guarded tail_without_else = false.
+Proof. exact tail_without_else_refuted. Qed.
+Print Assumptions C12_tail_without_else_refuted.
